@@ -211,6 +211,18 @@ def can_family(tier, sd=0):
     sch("ids_out_of_order", [("a", 2, ("u", 3)), ("b", 0, ("i", 13)), ("c", 1, ("u", 8))])
     sch("exactly_64", [("u", 31), ("i", 33)])
     sch("one_bit", [("u", 1)])
+    sch("i1_fields", [("i", 1), ("u", 1), ("i", 1), ("arr", ("i", 1), 2), ("i", 2)])
+    sch("derived_looking_names", [("s1", 0, ("u", 16)), ("s1_1", 1, ("u", 16)), ("s1_0", 2, ("u", 16))],
+        sigs=[("s1", {"endianess": "big"})])
+    same = Schema(structs=[("A", [("x", 0, ("u", 16)), ("y", 1, ("u", 8))])], top="A",
+                  impls=[("can", "A", "First", {"id": 30, "device": "e"}, [("x", {"endianess": "big"})]),
+                         ("can", "A", "Second", {"id": 31, "device": "e"}, [("y", {"mux_count": 2, "mux_signal": "x"})]),
+                         ("can", "A", "Third", {"id": 32, "device": "e"}, [])])
+    out.append(("one_struct_three_bindings_different_options", same))
+    arrs = Schema(structs=[("Status", [("flags", 0, ("u", 8)), ("data", 1, ("arr", ("u", 8), 2))]),
+                           ("Log", [("kind", 0, ("u", 8)), ("data", 1, ("arr", ("u", 16), 2))])], top="Status",
+                  impls=[("can", "Status", None, {"id": 40, "device": "e"}, []), ("can", "Log", None, {"id": 41, "device": "e"}, [])])
+    out.append(("same_named_arrays_two_bindings", arrs))
     # several buses / several messages
     multi = Schema(structs=[("A", [("x", 0, ("u", 8)), ("y", 1, ("i", 16))]), ("B", [("z", 0, ("f32",))]),
                             ("C", [("w", 0, ("u", 12)), ("v", 1, ("u", 4))])],
@@ -262,6 +274,9 @@ def c05_tv_case(args):
     known = Known("C05")
     feats = {"desc": name, "schema": schema.describe()}
     text = schema.text()
+    from ..prime import prime, decoy_text
+    dtext = decoy_text(schema)
+    prime(dtext, ("layout", "dbc"))
     fcp = parse(text)
     try:
         files = fcp_dbc.Generator().generate(fcp, {"output": "out"})
@@ -276,7 +291,7 @@ def c05_tv_case(args):
 
     def report(what, witness=None, ob=""):
         path = write_replay("C05", {"kind": "dbc_tv", "schema_text": text, "property": "C05", "what": what,
-                                    "frame": witness, "obligation": ob})
+                                    "frame": witness, "obligation": ob, "decoy_text": dtext})
         ok, t = run_replay(path)
         if ok:
             res["violations"].append({"replay": path, "ob": ob, "what": f"{what} :: {t[-200:]}"})
@@ -590,6 +605,13 @@ def c14_concrete_cases():
     cases.append(("size", s, False))
     s = Schema(structs=[("S", [("a", 0, ("f64",)), ("b", 1, ("u", 1))])], impls=[("can", "S", None, {"id": 5, "device": "ecu"}, [])])
     cases.append(("size", s, False))
+    # a small binding first, then an oversize / variable-size one with a same-named array (one encoder serves both)
+    for et in (("u", 32), ("str",), ("opt", ("u", 16))):
+        s = Schema(structs=[("Status", [("flags", 0, ("u", 8)), ("data", 1, ("arr", ("u", 8), 2))]),
+                            ("Log", [("kind", 0, ("u", 8)), ("data", 1, ("arr", et, 2))])], top="Status",
+                   impls=[("can", "Status", None, {"id": 40, "device": "ecu"}, []),
+                          ("can", "Log", None, {"id": 41, "device": "ecu"}, [])])
+        cases.append(("second_binding", s, False))
     # renamed bindings ('as'), several bindings of one struct
     s = Schema(structs=[("S", [("a", 0, ("u", 64)), ("b", 1, ("u", 8))])],
                impls=[("can", "S", "BigFrame", {"id": 5, "device": "ecu"}, [])])
